@@ -77,8 +77,9 @@ def work_kind(spec, rec, kind):
             rec.hit("generated_decided")
             rec.violation(f"generated:{classify(detail, rendering)}", f"{kind} rendering {rendering[:200]!r} of {sympy.srepr(e)[:200]}: {detail[:200]}",
                           {"srepr": sympy.srepr(e)[:1500], "rendering": rendering[:400], "detail": detail[:300]})
-        elif detail.startswith("parse") and all(isinstance(f_, sympy.core.function.AppliedUndef) or type(f_).__name__ in ("sin", "cos", "exp", "log", "Abs", "tan", "sinh", "atan")
-                                                for f_ in e.atoms(sympy.Function)):
+        elif detail.startswith("parse") and all(
+                isinstance(n_, (sympy.Add, sympy.Mul, sympy.Pow, sympy.Symbol, sympy.Number, sympy.NumberSymbol, sympy.core.function.AppliedUndef)) or n_ is sympy.I
+                or type(n_).__name__ in ("sin", "cos", "exp", "log", "Abs", "tan", "sinh", "atan", "Mod") for n_ in sympy.preorder_traversal(e)):
             # (deep trees make SymPy introduce re/im/atan2/arg itself: those stay inconclusive)
             # a canonical tree over symbols, numbers, elementary and library functions only uses constructs the own
             # reader covers: a rendering it cannot read is ill-formed (e.g. an exponent that lost its braces)
@@ -155,8 +156,10 @@ def work_kind(spec, rec, kind):
                 fs.append(sympy.Rational(r.choice([1, 3, 5]), r.choice([2, 4, 7])))
             elif k < 0.88:
                 fs.append(sympy.Pow(r.choice(syms + [sympy.Integer(10), sympy.Integer(2)]), r.choice([2, 3, r.choice(syms)]), evaluate=False))
-            elif k < 0.93:
+            elif k < 0.91:
                 fs.append(pi)
+            elif k < 0.94:
+                fs.append(sympy.Mod(r.choice(syms), r.choice(syms + [sympy.Integer(3)])))   # an infix factor of low precedence in LaTeX
             else:
                 fs.append(r.choice([sqrt, sin])(r.choice(syms)))
         if all(f.is_number for f in fs):
@@ -198,6 +201,19 @@ def work_kind(spec, rec, kind):
                           {"srepr": sympy.srepr(e)[:1500], "rendering": rendering[:400], "detail": detail[:300]})
         else:
             rec.inconc("product chain: " + detail.split(":")[0][:50])
+    # (a3) a modulus whose second operand is itself a modulus (one fixed family of canonical trees, reported under its own key)
+    if spec["shard"] == 0:
+        for e in (sympy.Mod(syms[0], sympy.Mod(syms[1], syms[2])), sympy.Mod(syms[0] + 1, sympy.Mod(syms[1], 3)) * syms[2], 2 - sympy.Mod(syms[3], sympy.Mod(syms[0] * syms[1], syms[2]))):
+            try:
+                with harness.Watchdog(20):
+                    verdict, detail, rendering = render_compare(e, r)
+            except Exception:  # pylint: disable=broad-except
+                continue
+            rec.case(("nested-mod", rendering), nontrivial=True)
+            rec.hit("nested_mod_probes")
+            if verdict == "viol":
+                rec.violation("nested-mod-second-operand:value", f"{kind} rendering {rendering[:200]!r} of {sympy.srepr(e)[:200]}: {detail[:200]}",
+                              {"srepr": sympy.srepr(e)[:600], "rendering": rendering[:300], "detail": detail[:200]})
     # (b) the catalogue in documented source form
     for name in spec["modules"]:
         rec.checkpoint()
